@@ -10,6 +10,8 @@ acc  <rid> <path> <bid> <prehex|-> <wirehex|-> -> <buflen> <first 48 residue byt
 srv  <rid>                                    -> <view:<hex|->|none>
 pfx  <arrhex|-> <len> <msghex|->              -> <hex of the bytes packWithPrefix writes>
 pudp <arrhex|-> <len> <msghex|->              -> <hex of the bytes the UDP writer writes>
+preq <udp|tcp> <spare> <bufhex|-> <packedhex|-> -> err | <n> <hex of the buffer afterwards> (packReq; `oldpreq`: pre-fix)
+retry <udp|tcp> <spare> <bufhex|-> <packedhex|-> <parthex|-> -> err | <first write hex> <second write hex>
 ```
 `acc`/`srv` drive the concurrent system (`Sys`): buffers have identities, `acc` is Get + read + guards,
 `srv` is the worker (Unpack of the recorded slice of the buffer as it is now, then Put).
@@ -99,6 +101,15 @@ def step (s : St) : List String → St × String
     ({ s with sys := r.1 }, match r.2 with | some o => showOut o | none => "none")
   | ["pfx", arr, len, msg] => (s, hex (packWithPrefix (unhex arr) (nat! len) (unhex msg)).1)
   | ["pudp", arr, len, msg] => (s, hex (packUDP (unhex arr) (nat! len) (unhex msg)).1)
+  | ["preq", nw, spare, buf, packed] =>
+    (s, match packReq (nat! spare) (nw == "tcp") (unhex buf) (unhex packed) with
+      | none => "err" | some r => s!"{r.1} {hex r.2}")
+  | ["oldpreq", nw, spare, buf, packed] =>
+    (s, match packReqOld (nat! spare) (nw == "tcp") (unhex buf) (unhex packed) with
+      | none => "err" | some r => s!"{r.1} {hex r.2}")
+  | ["retry", nw, spare, buf, packed, part] =>
+    (s, match retryWrites (nat! spare) (nw == "tcp") (unhex buf) (unhex packed) (unhex part) with
+      | none => "err" | some w => s!"{hex w.1} {hex w.2}")
   | _ => (s, "bad-op")
 
 def main : IO Unit := loop step { srv := Server.init Cfg.prod, sys := Sys.init Cfg.prod }
